@@ -80,6 +80,11 @@ Theorem C06_spec_uniform : forall (hc : bytes -> bytes -> bytes) a b,
     perfect hc (depth_below 2) (firstn (2 * 2 ^ depth_below 2 - 2) [a; b] ++ pairs hc (skipn (2 * 2 ^ depth_below 2 - 2) [a; b]))%list.
 Proof. exact tree_spec_small. Qed.
 
+(* sanity of the specification itself: on 2^k leaves it is the plain perfect binary Merkle tree *)
+Theorem C06_spec_pow2 : forall (hc : bytes -> bytes -> bytes) k l,
+  List.length l = (2 ^ k)%nat -> tree_spec hc l = perfect hc k l.
+Proof. exact tree_spec_pow2. Qed.
+
 (* non-vacuity: with hc a b = "(" a "," b ")" the shape of the tree is visible *)
 Definition paren (a b : bytes) : bytes := (x28 :: a ++ x2c :: b ++ [x29])%list.
 Definition leaves_abc (n : nat) : list bytes := map (fun i => [n2b (97 + N.of_nat i)]) (seq 0 n).
@@ -138,6 +143,8 @@ Check C06_spec_uniform : forall (hc : bytes -> bytes -> bytes) a b,
     perfect hc (depth_below 1) (firstn (2 * 2 ^ depth_below 1 - 1) [a] ++ pairs hc (skipn (2 * 2 ^ depth_below 1 - 1) [a]))%list /\
   tree_spec hc [a; b] =
     perfect hc (depth_below 2) (firstn (2 * 2 ^ depth_below 2 - 2) [a; b] ++ pairs hc (skipn (2 * 2 ^ depth_below 2 - 2) [a; b]))%list.
+Check C06_spec_pow2 : forall (hc : bytes -> bytes -> bytes) k l,
+  List.length l = (2 ^ k)%nat -> tree_spec hc l = perfect hc k l.
 
 Print Assumptions C06_cnt.
 Print Assumptions C06_cnt_pow2.
@@ -151,3 +158,4 @@ Print Assumptions C06_id.
 Print Assumptions C06_id_cases.
 Print Assumptions C06_id_keccak.
 Print Assumptions C06_spec_uniform.
+Print Assumptions C06_spec_pow2.
